@@ -25,7 +25,7 @@ HEADER = ("From Coq Require Import QArith List. Import ListNotations.\n"
           "Require Import NV.C20.Model.\nOpen Scope Q_scope.\n")
 
 JAX_CHEAP = ["re.wf.signal", "re.wf.data", "re.wf.lin.signal", "re.wf.lin.data", "re.T", "re.wf.samples"]
-JAX_OKL = ["re.okl.map", "re.okl.mgvi"]
+JAX_OKL = ["re.okl.map", "re.okl.mgvi", "re.okl.schedule"]
 CL_ROUTES = ["cl.wfc.inverse", "cl.newton.map", "cl.kl.mgvi", "cl.okl.mgvi", "cl.T.kl", "cl.T.wfc"]
 
 
@@ -125,6 +125,35 @@ def run_route(lg, route, seed=0):
                 chk.append(np.asarray(r))
             # rows: pos, residuals (4), re-drawn residuals (2)
             return np.vstack([np.asarray(s.pos)[None], res, np.array(chk)])
+        if route == "re.okl.schedule":
+            # two global iterations on a two-key domain with a point estimate: iteration 0 draws linear
+            # samples, iteration 1 keeps them and runs `nonlinear_update` (same n_samples).  For the linear
+            # model the result must be: exact posterior mean, zero residuals on the frozen key, and the
+            # residuals of the sampled key = linear residuals for the stored keys (exact posterior samples
+            # of the frozen likelihood).
+            from . import c18 as P18
+            from nifty.re import evi
+            case2 = dict(case, na=1 if lg.n > 1 else 1, nonlinear=False, pe=["b"], napprox=0)
+            lh2, pos2 = P18.jax_model(lg, case2)
+            mk = dict(name=None, xtol=1e-13, absdelta=None, miniter=2, maxiter=30,
+                      cg_kwargs=dict(name=None, **L.CG_TIGHT))
+            mk2 = dict(name=None, xtol=1e-13, absdelta=None, miniter=1, maxiter=25,
+                       cg_kwargs=dict(name=None, **L.CG_TIGHT))
+            samples, _ = _quiet(lambda: jft.optimize_kl(
+                lh2, pos2, key=key, n_total_iterations=2, n_samples=2, point_estimates=("b",),
+                sample_mode=lambda i: "linear_resample" if i == 0 else "nonlinear_update",
+                draw_linear_kwargs=kw, nonlinearly_update_kwargs=dict(minimize_kwargs=mk2),
+                kl_kwargs=dict(minimize_kwargs=mk), odir=None))
+            res = np.array([P18.flat_vec(jax.tree_util.tree_map(lambda a: a[i], samples._samples), case2)
+                            for i in range(len(samples))])
+            redraw = []
+            for k in range(len(samples.keys)):
+                r, _ = evi.draw_linear_residual(lh2, samples.pos, samples.keys[k], point_estimates=("b",),
+                                                cg_kwargs=dict(L.CG_TIGHT))
+                r = P18.flat_vec(r, case2)
+                redraw += [r, -r]
+            # rows: pos, residuals (4), re-drawn linear residuals (4)
+            return np.vstack([P18.flat_vec(samples.pos, case2)[None], res, np.array(redraw)])
         if route in ("re.okl.map", "re.okl.mgvi"):
             mk = dict(name=None, xtol=1e-13, absdelta=None, miniter=2, maxiter=30,
                       cg_kwargs=dict(name=None, **L.CG_TIGHT))
@@ -142,10 +171,7 @@ def run_route(lg, route, seed=0):
     lhc = ift.GaussianEnergy(o["d"], o["Ninv"]) @ o["R"]
     s0 = ift.makeField(o["dom"], lg.f("s0"))
     if route in ("cl.wfc.inverse", "cl.T.wfc"):
-        if case["noise"] != "diag":
-            return None
-        Nop = ift.DiagonalOperator(ift.makeField(o["tgt"], np.diag(lg.impl("N")).copy()),
-                                   sampling_dtype=np.complex128 if lg.is_complex else np.float64)
+        Nop = o["N"]
         Sop = ift.DiagonalOperator(ift.makeField(o["dom"], 1. / lg.f("sinv")), sampling_dtype=np.float64)
         icc = ift.GradientNormController(tol_abs_gradnorm=1e-13, iteration_limit=400)
         if route == "cl.wfc.inverse":
@@ -263,6 +289,13 @@ def coq_term(lg, route, out):
         return "corr_cov %s %s %s (post_cov_inv %s %s %s) %s" % (TOLQ, n, C.cnat(out.shape[1]), n, R, Ninv, fm(out))
     if route == "cl.T.wfc":
         return "corr_cov %s %s %s (curvature %s %s %s %s) %s" % (TOLQ, n, C.cnat(out.shape[1]), n, R, Ninv, qv(lg.sinv), fm(out))
+    if route == "re.okl.schedule":
+        k = (out.shape[0] - 1) // 2
+        s0 = [Fr(x) for x in lg.p]          # P18.jax_model starts at the expansion point p
+        terms = ["corr_map %s %s %s %s %s %s %s" % (TOLQ, n, R, Ninv, d, qv(s0), fv(out[0]))]
+        for a, b in zip(out[1:1 + k], out[1 + k:]):
+            terms.append("close %s %s %s" % (TOLQ, fv(a), fv(b)))
+        return " && ".join("(%s)" % t for t in terms)
     if route == "re.wf.samples":
         # pos is the mean; the samples themselves are judged by the direct oracle and by re.T
         return "corr_signal %s %s %s %s %s %s" % (TOLQ, n, R, Ninv, d, fv(out[0]))
@@ -289,6 +322,20 @@ def direct_failure(lg, route, out):
         err = np.abs(out @ out.T @ A - np.eye(lg.n)).max()
         if err > TOL:
             return "sampling factor: |T T^T (R^T N^-1 R + S^-1) - 1| = %.3e" % err
+        return None
+    if route == "re.okl.schedule":
+        k = (out.shape[0] - 1) // 2
+        pos, res, red = out[0], out[1:1 + k], out[1 + k:]
+        if np.abs(pos - ref).max() > TOL * max(1.0, np.abs(ref).max()):
+            return "two-iteration schedule with a point estimate: position differs from the exact posterior mean by %.3e" \
+                % np.abs(pos - ref).max()
+        nfro = lg.n - 1
+        if np.any(res[:, 1:] != 0):
+            return "two-iteration schedule (linear_resample -> nonlinear_update): point-estimated key has non-zero residuals (max %.3e)" \
+                % np.abs(res[:, 1:]).max()
+        if np.abs(res - red).max() > TOL:
+            return "two-iteration schedule: residuals are not the linear residuals of the frozen likelihood (max dev. %.3e)" \
+                % np.abs(res - red).max()
         return None
     if route == "re.wf.samples":
         pos, res, chk = out[0], out[1:5], out[5:7]
